@@ -1,6 +1,7 @@
 package props
 
 import (
+	"go/ast"
 	"fmt"
 	"go/types"
 	"regexp"
@@ -103,6 +104,10 @@ func runC10(p *core.Program, r *core.Report) {
 
 	ts := lockedTypes(p, []string{"util/hmap", "util/list", "util/queue"})
 	r.Stats["types_with_mutex"] = len(ts)
+	r.Rule("C10.snapshots", "a whole-structure operation hands out a slice made for the call, never storage kept in the collection (two callers would share one backing array)", 20)
+	c10Snapshots(p, r, "C10.snapshots", ts)
+	r.Rule("C10.callback-unlock", "a method that runs a caller-supplied function under the mutex releases the mutex by defer (a panic in the callback must not leave the collection locked for ever)", 3)
+	c10CallbackUnlock(p, r, "C10.callback-unlock", ts)
 	for _, t := range ts {
 		tl := locks.Analyze(p, t)
 		tname := core.RelPkg(t.Obj().Pkg().Path()) + "." + t.Obj().Name()
@@ -412,4 +417,173 @@ func guardedFields(tl *locks.TypeLocks) map[string]bool {
 		}
 	}
 	return out
+}
+
+// c10Snapshots: what a whole-structure operation hands out (KeyArray, ValueArray, ToArray, …) is the
+// caller's: a slice made for this call. A method of a shared collection that returns a slice kept in
+// a field of the collection (or a re-slice of one) hands every caller the same storage: the next call,
+// by any goroutine, rewrites the snapshot an earlier caller is still reading — a data race and a torn
+// result although every call held the lock while it ran.
+func c10Snapshots(p *core.Program, r *core.Report, rule string, ts []*types.Named) {
+	for _, t := range ts {
+		tname := core.RelPkg(t.Obj().Pkg().Path()) + "." + t.Obj().Name()
+		for _, fi := range p.MethodsOf(t) {
+			if fi.Decl.Body == nil || !fi.Obj.Exported() {
+				continue
+			}
+			sig := fi.Obj.Type().(*types.Signature)
+			sliceRes := false
+			for i := 0; i < sig.Results().Len(); i++ {
+				if _, ok := sig.Results().At(i).Type().Underlying().(*types.Slice); ok {
+					sliceRes = true
+				}
+			}
+			if !sliceRes {
+				continue
+			}
+			info := fi.Pkg.TypesInfo
+			rn := recvName(fi)
+			var kept func(e ast.Expr, depth int) string
+			kept = func(e ast.Expr, depth int) string {
+				e = ast.Unparen(e)
+				if depth > 6 {
+					return ""
+				}
+				switch v := e.(type) {
+				case *ast.SliceExpr:
+					return kept(v.X, depth+1)
+				case *ast.SelectorExpr:
+					if id, ok := ast.Unparen(v.X).(*ast.Ident); ok && id.Name == rn {
+						switch info.TypeOf(v).Underlying().(type) {
+						case *types.Slice, *types.Array:
+							return types.ExprString(v)
+						}
+					}
+				case *ast.Ident:
+					o, _ := info.ObjectOf(v).(*types.Var)
+					if o == nil || o.IsField() {
+						return ""
+					}
+					why := ""
+					ast.Inspect(fi.Decl.Body, func(n ast.Node) bool {
+						if as, ok := n.(*ast.AssignStmt); ok && len(as.Lhs) == len(as.Rhs) {
+							for i, l := range as.Lhs {
+								if id, ok := l.(*ast.Ident); ok && info.ObjectOf(id) == types.Object(o) && ast.Unparen(as.Rhs[i]) != e {
+									if w := kept(as.Rhs[i], depth+1); w != "" {
+										why = w
+									}
+								}
+							}
+						}
+						return true
+					})
+					return why
+				}
+				return ""
+			}
+			bad := ""
+			ast.Inspect(fi.Decl.Body, func(n ast.Node) bool {
+				if _, isLit := n.(*ast.FuncLit); isLit {
+					return false
+				}
+				rs, ok := n.(*ast.ReturnStmt)
+				if !ok {
+					return true
+				}
+				for _, res := range rs.Results {
+					if _, isSlice := info.TypeOf(res).Underlying().(*types.Slice); !isSlice {
+						continue
+					}
+					if w := kept(res, 0); w != "" {
+						bad = "returns " + w + ", storage the collection keeps: every caller gets the same backing array and the next call overwrites what an earlier caller still holds"
+					}
+				}
+				return true
+			})
+			r.Check(bad == "", rule, tname+"."+fi.Obj.Name()+" fresh result", p.Pos(fi.Decl.Pos()), "the slice handed out is made for the call", bad)
+		}
+	}
+}
+
+// c10CallbackUnlock: a method that runs a function it was handed (a comparator, a visitor) while it
+// holds the collection's mutex releases the mutex by defer. With an explicit Unlock after the call, a
+// panic in the caller's function — which the caller may well recover from — leaves the mutex held, and
+// every later operation on the collection blocks for ever.
+func c10CallbackUnlock(p *core.Program, r *core.Report, rule string, ts []*types.Named) {
+	for _, t := range ts {
+		tname := core.RelPkg(t.Obj().Pkg().Path()) + "." + t.Obj().Name()
+		for _, fi := range p.MethodsOf(t) {
+			if fi.Decl.Body == nil || !fi.Obj.Exported() {
+				continue
+			}
+			info := fi.Pkg.TypesInfo
+			// function-typed parameters
+			fparams := map[types.Object]bool{}
+			for _, f := range fi.Decl.Type.Params.List {
+				for _, nm := range f.Names {
+					if o := info.Defs[nm]; o != nil {
+						if _, ok := o.Type().Underlying().(*types.Signature); ok {
+							fparams[o] = true
+						}
+					}
+				}
+			}
+			if len(fparams) == 0 {
+				continue
+			}
+			rn := recvName(fi)
+			locksIt, deferred, explicit := false, false, false
+			isLockCall := func(c *ast.CallExpr, names ...string) bool {
+				sel, ok := ast.Unparen(c.Fun).(*ast.SelectorExpr)
+				if !ok {
+					return false
+				}
+				hit := false
+				for _, nm := range names {
+					if sel.Sel.Name == nm {
+						hit = true
+					}
+				}
+				if !hit {
+					return false
+				}
+				s := stripSpaces(types.ExprString(sel.X))
+				return strings.HasPrefix(s, rn+".")
+			}
+			ast.Inspect(fi.Decl.Body, func(n ast.Node) bool {
+				switch x := n.(type) {
+				case *ast.DeferStmt:
+					if isLockCall(x.Call, "Unlock", "RUnlock") {
+						deferred = true
+					}
+					if lit, ok := ast.Unparen(x.Call.Fun).(*ast.FuncLit); ok {
+						ast.Inspect(lit.Body, func(m ast.Node) bool {
+							if c, ok := m.(*ast.CallExpr); ok && isLockCall(c, "Unlock", "RUnlock") {
+								deferred = true
+							}
+							return true
+						})
+					}
+					return false
+				case *ast.CallExpr:
+					if isLockCall(x, "Lock", "RLock") {
+						locksIt = true
+					}
+					if isLockCall(x, "Unlock", "RUnlock") {
+						explicit = true
+					}
+				}
+				return true
+			})
+			if !locksIt {
+				continue
+			}
+			c := tname + "." + fi.Obj.Name() + " unlocks by defer around the caller's function"
+			if explicit && !deferred {
+				r.Viol(rule, c, p.Pos(fi.Decl.Pos()), "the method holds the mutex while it runs a function it was handed and releases it with a plain Unlock: a panic in that function (recovered by the caller) leaves the mutex held and every later operation on the collection blocks for ever")
+			} else {
+				r.OK(rule, c, p.Pos(fi.Decl.Pos()), "released by defer")
+			}
+		}
+	}
 }
